@@ -14,6 +14,7 @@ import (
 	"fmt"
 	"io"
 	mrand "math/rand/v2"
+	"os"
 	"sort"
 	"strings"
 	"sync"
@@ -47,8 +48,12 @@ import (
 )
 
 func TestVerifC06(t *testing.T) {
+	prop := os.Getenv("VERIF_PROP")
+	if prop == "" {
+		prop = "C06"
+	}
 	verifsim.Main(t, verifsim.World{
-		Prop: "C06", Name: "W-NET/getters",
+		Prop: prop, Name: "W-NET/getters",
 		Run: func(s *verifsim.Sim) {
 			defer ipld.VerifNewPool()()
 			vsGetterWorld(s)
@@ -94,7 +99,32 @@ const (
 
 var vsBehaviourNames = []string{"honest", "not-found", "internal", "silent", "reset-early", "reset-mid-payload", "resource-limit-reset", "rate-limit-reset", "truncated", "trailing-bytes", "garbled", "other-square", "other-coordinates"}
 
+// vsGiveUp makes the caller cancel its call at the instant the k-th complete answer has been written
+// to it: the answer is read in full while the request is already abandoned.
+type vsGiveUp struct {
+	mu     sync.Mutex
+	k, n   int
+	cancel func()
+	fired  bool
+}
+
+func (g *vsGiveUp) answered(s *verifsim.Sim) {
+	g.mu.Lock()
+	g.n++
+	hit := g.k > 0 && g.n == g.k && g.cancel != nil
+	c := g.cancel
+	if hit {
+		g.fired = true
+	}
+	g.mu.Unlock()
+	if hit {
+		s.Fault("caller-gives-up-as-answer-arrives")
+		c()
+	}
+}
+
 type vsPeer struct {
+	giveUp *vsGiveUp
 	id     peer.ID
 	host   *verifnet.Host
 	mu     sync.Mutex
@@ -194,6 +224,9 @@ func vsProxy(s *verifsim.Sim, p *vsPeer, self *verifnet.Host, honest, other peer
 		}
 		_, _ = cs.Write(resp)
 		_ = cs.Close()
+		if p.giveUp != nil {
+			p.giveUp.answered(s)
+		}
 	}
 }
 
@@ -339,6 +372,13 @@ func vsGetterWorld(s *verifsim.Sim) {
 		deadline = 10 * time.Minute // generous: an honest answer must get through
 	}
 	s.Cfg["deadline"] = deadline.String()
+	giveUp := &vsGiveUp{}
+	if scenario != 1 && scenario != 3 && s.Chance(1, 4, "caller_gives_up") {
+		giveUp.k = 1 + s.Choose(3, "give_up_at_answer")
+	}
+	for _, p := range ps {
+		p.giveUp = giveUp
+	}
 	call := s.Choose(5, "call")
 	size := 2 * w
 	var problems []string
@@ -347,9 +387,12 @@ func vsGetterWorld(s *verifsim.Sim) {
 	task := s.Go("call", func() {
 		ctx, cancel := context.WithTimeout(context.Background(), deadline)
 		defer cancel()
+		giveUp.mu.Lock()
+		giveUp.cancel = cancel
+		giveUp.mu.Unlock()
 		defer func() {
 			if r := recover(); r != nil {
-				s.Violate("c06-getter-panics", what, "%s panicked: %v", what, r)
+				s.ViolateP("C06", "c06-getter-panics", what, "%s panicked: %v", what, r)
 			}
 		}()
 		switch call {
@@ -478,17 +521,22 @@ func vsGetterWorld(s *verifsim.Sim) {
 		hist += fmt.Sprintf("%s:%v ", k, served[k])
 	}
 	if !task.Done() {
-		s.Violate("c06-call-does-not-return", what, "%s (deadline %v) has not returned %v after its deadline; peers answered %s", what, deadline, 2*time.Minute, hist)
+		s.ViolateP("C06", "c06-call-does-not-return", what, "%s (deadline %v) has not returned %v after its deadline; peers answered %s", what, deadline, 2*time.Minute, hist)
 		return
 	}
 	if len(problems) > 0 {
-		s.Violate("c06-unverified-data-returned", vsWord(what), "%s via %s: %s; peers answered %s", what, s.Cfg["wiring"], problems[0], hist)
+		if vsWord(what) == "GetNamespaceData" {
+			s.ViolateP("C02", "c02-rejected-data-accepted", vsWord(what), "%s via %s handed back namespace data that is not the complete committed data: %s; peers answered %s", what, s.Cfg["wiring"], problems[0], hist)
+		} else {
+			s.ViolateP("C01", "c01-rejected-data-accepted", vsWord(what), "%s via %s handed back shares that are not the committed shares of the requested position: %s; peers answered %s", what, s.Cfg["wiring"], problems[0], hist)
+		}
+		s.ViolateP("C06", "c06-unverified-data-returned", vsWord(what), "%s via %s: %s; peers answered %s", what, s.Cfg["wiring"], problems[0], hist)
 		return
 	}
 	switch scenario {
 	case 1, 3:
 		if callErr != nil {
-			s.Violate("c06-honest-answer-not-accepted", vsWord(what), "%s via %s failed with %s although an honest peer was available throughout (scenario %v) and the deadline is %v; peers answered %s", what, s.Cfg["wiring"], vsShort(callErr), s.Cfg["scenario"], deadline, hist)
+			s.ViolateP("C06", "c06-honest-answer-not-accepted", vsWord(what), "%s via %s failed with %s although an honest peer was available throughout (scenario %v) and the deadline is %v; peers answered %s", what, s.Cfg["wiring"], vsShort(callErr), s.Cfg["scenario"], deadline, hist)
 		}
 	case 2:
 		total := 0
@@ -499,11 +547,11 @@ func vsGetterWorld(s *verifsim.Sim) {
 		case total == 0:
 			// nothing had to be fetched (e.g. a namespace outside every row's range)
 		case callErr == nil:
-			s.Violate("c06-not-found-reported-as-success", vsWord(what), "%s succeeded although every peer answered NOT_FOUND; peers answered %s", what, hist)
+			s.ViolateP("C06", "c06-not-found-reported-as-success", vsWord(what), "%s succeeded although every peer answered NOT_FOUND; peers answered %s", what, hist)
 		case errors.Is(callErr, shrex.ErrInvalidResponse) || errors.Is(callErr, shwap.ErrFailedVerification):
-			s.Violate("c06-not-found-reported-as-corruption", vsWord(what), "%s via %s: every peer answered NOT_FOUND but the error classifies the response as invalid: %v", what, s.Cfg["wiring"], callErr)
+			s.ViolateP("C06", "c06-not-found-reported-as-corruption", vsWord(what), "%s via %s: every peer answered NOT_FOUND but the error classifies the response as invalid: %v", what, s.Cfg["wiring"], callErr)
 		case !errors.Is(callErr, shwap.ErrNotFound) && !errors.Is(callErr, context.DeadlineExceeded) && !errors.Is(callErr, context.Canceled):
-			s.Violate("c06-not-found-misreported", vsWord(what), "%s via %s: every peer answered NOT_FOUND, the call returned before its deadline, but the error is not ErrNotFound: %v", what, s.Cfg["wiring"], callErr)
+			s.ViolateP("C06", "c06-not-found-misreported", vsWord(what), "%s via %s: every peer answered NOT_FOUND, the call returned before its deadline, but the error is not ErrNotFound: %v", what, s.Cfg["wiring"], callErr)
 		}
 	}
 	_ = sg.Stop(context.Background())
